@@ -7,7 +7,7 @@
    C15_align_operand; what stays outside is stated in the comment of C15_no_internal_exception. *)
 From Coq Require Import ZArith List String.
 From BB Require Import Base.PyBase Gen.Encoders Model.Items Model.Encode Model.Passes
-  Proofs.Layout Proofs.Pipeline Proofs.Errors Proofs.Examples Model.Parser Proofs.ParseErrors Proofs.EncSig Proofs.EncTotal Proofs.NoRaw.
+  Proofs.Layout Proofs.Pipeline Proofs.Errors Proofs.Examples Model.Parser Proofs.ParseErrors Proofs.EncSig Proofs.EncTotal Proofs.NoRaw Proofs.ParseOk.
 Import ListNotations.
 Open Scope Z_scope.
 
@@ -131,6 +131,22 @@ Print Assumptions C15_no_internal_exception.
 Example C15_no_internal_exception_example :      (* the hypothesis holds of real programs: the example programs of C03 / C12 *)
   Forall (fun li => NoRaw.okb 0 (snd li) = true) ex_its /\ Forall (fun li => NoRaw.okb 0 (snd li) = true) ex12.
 Proof. split; repeat constructor. Qed.
+
+(* ... and the hypothesis is what the front end produces: whatever the parser model returns for ANY token list is well-formed,
+   with exactly the two exceptions named above (stated as hypotheses here): a pseudo-instruction must have the operand count of
+   its regenerated template row, a shorthand directive a name of the size table.  (include_bytes lines are outside the parser
+   model: FUnsup.) *)
+Theorem C15_parser_output_well_formed :
+  forall (l : line) (tokens : list string) (it : item),
+    Parser.parse_item l tokens = Parser.FOk it ->
+    (forall n a p, it = IPseudo n a p -> ParseOk.pseudo_arity_okb n a = true) ->
+    (forall n v, it = IShort n v -> short_fmt n <> None) ->
+    NoRaw.okb 0 it = true.
+Proof.
+  intros l tokens it H P S. eapply ParseOk.concl_ok; eauto. eapply ParseOk.parse_item_ok; eauto.
+  intros n v E. specialize (S n v E). destruct (short_fmt n); [reflexivity|contradiction].
+Qed.
+Print Assumptions C15_parser_output_well_formed.
 
 (* non-vacuity: a program with an undefined label fails with the assembler's error at the referring line *)
 Example C15_example :
